@@ -194,7 +194,7 @@ func (x *Exec) binop(a *activation, b *ssa.BasicBlock, i int, in *ssa.BinOp, fr 
 			a.cont(b, i+1, f2, h2, p)
 		}
 		if ev.tri&2 != 0 {
-			x.setVal(fr, evV, AV{k: 'E', tri: 2})
+			x.setVal(fr, evV, AV{k: 'E', tri: 2, tag: ev.tag})
 			fr.vals[in] = res(false)
 			a.cont(b, i+1, fr, h, p)
 		}
@@ -296,6 +296,9 @@ func (x *Exec) binop(a *activation, b *ssa.BasicBlock, i int, in *ssa.BinOp, fr 
 			o := AV{k: 'S'}
 			if l.sk && r.sk {
 				o.sk, o.s = true, l.s+r.s
+			}
+			if l.tag != "" || r.tag != "" {
+				o.tag = strings.Trim(l.tag+"+"+r.tag, "+")
 			}
 			fr.vals[in] = o
 			return false
@@ -891,10 +894,33 @@ func (x *Exec) model(a *activation, b *ssa.BasicBlock, i int, in *ssa.Call, call
 		return ""
 	}
 	switch name {
+	case "(*sync.Map).Load", "(*sync.Map).LoadOrStore", "(*sync.Map).LoadAndDelete":
+		// a value someone stored earlier: unknown, and certainly not fresh
+		fr.vals[in] = AV{k: 'T', tup: []AV{{k: 'I', atoms: x.uni | APtr | AStruct | AOther, what: "from sync.Map"}, {k: 'B', tri: 3}}}
+	case "(*sync.Map).Store", "(*sync.Map).Delete", "(*sync.Mutex).Lock", "(*sync.Mutex).Unlock", "(*sync.RWMutex).Lock", "(*sync.RWMutex).Unlock", "(*sync.RWMutex).RLock", "(*sync.RWMutex).RUnlock":
+		// no value; the shared state itself is rule BAN's / Own's business
 	case "errors.New", "fmt.Errorf":
 		fr.vals[in] = AV{k: 'E', tri: 2}
 	case "fmt.Sprintf", "fmt.Sprint", "strings.Join", "strings.Repeat", "strings.Replace", "strings.ToUpper", "strings.ToLower", "strconv.Quote", "strconv.FormatInt", "strconv.FormatFloat", "strconv.QuoteRuneToASCII", "strings.TrimSpace", "strings.ReplaceAll":
-		fr.vals[in] = AV{k: 'S'}
+		out := AV{k: 'S'}
+		// a string built from tagged strings keeps their tags (API rules: "the message contains the expression")
+		var tags []string
+		for _, av := range args {
+			if av.tag != "" {
+				tags = append(tags, av.tag)
+			}
+			if av.k == 'L' && av.obj != 0 && h.objs[av.obj] != nil {
+				for _, e := range h.objs[av.obj].elems {
+					if e.tag != "" {
+						tags = append(tags, e.tag)
+					}
+				}
+			}
+		}
+		if len(tags) > 0 {
+			out.tag = callee.Name() + "(" + strings.Join(tags, ",") + ")"
+		}
+		fr.vals[in] = out
 	case "strings.HasPrefix", "strings.HasSuffix", "strings.Contains", "strings.EqualFold", "utf8.ValidString", "unicode/utf8.ValidString":
 		fr.vals[in] = AV{k: 'B', tri: 3}
 	case "math.Abs", "math.Ceil", "math.Floor", "math.Trunc", "math.Round":
